@@ -4,7 +4,8 @@
 //
 //   - before a statement that performs a channel send/receive, a select, close(ch),
 //     x.Lock/RLock, wg.Wait, once.Do, cond.Wait or time.Sleep:   vrt.Yield("<file>:<line>")
-//   - after x.Lock()/x.RLock():                                    vrt.Acquired()
+//   - x.Lock()/x.RLock() become vrt.DoLock(label, x.TryLock, x.Lock): gate, lock, Acquired
+//     (in the scheduler's fine mode the lock is taken cooperatively with TryLock at the gate)
 //   - before x.Unlock()/x.RUnlock() (also in defer):               vrt.Released()
 //
 // With no controller installed vrt.Yield is one atomic load. Nothing else changes.
@@ -209,7 +210,23 @@ func (rw *rewriter) stmts(list []ast.Stmt) []ast.Stmt { //nolint:cyclop,gocognit
 			c, isCall := v.X.(*ast.CallExpr)
 			switch {
 			case isCall && (name == "Lock" || name == "RLock") && len(c.Args) == 0:
-				out = append(out, rw.yield(v.Pos()), s, call("Acquired"))
+				// vrt.DoLock("<file>:<line>", x.TryLock, x.Lock): gate, lock, Acquired (cooperative in fine mode)
+				sel, _ := c.Fun.(*ast.SelectorExpr)
+				if sel == nil {
+					out = append(out, rw.yield(v.Pos()), s, call("Acquired"))
+
+					break
+				}
+				rw.n++
+				pos := rw.fset.Position(v.Pos())
+				try := "TryLock"
+				if name == "RLock" {
+					try = "TryRLock"
+				}
+				out = append(out, call("DoLock",
+					&ast.BasicLit{Kind: token.STRING, Value: strconv.Quote(fmt.Sprintf("%s:%d", rw.file, pos.Line))},
+					&ast.SelectorExpr{X: sel.X, Sel: ast.NewIdent(try)},
+					&ast.SelectorExpr{X: sel.X, Sel: ast.NewIdent(name)}))
 			case isCall && (name == "Unlock" || name == "RUnlock") && len(c.Args) == 0:
 				out = append(out, call("Released"), s)
 			case isCall && (name == "Add" || name == "Done") && len(c.Args) <= 1:
